@@ -394,7 +394,8 @@ def expect_union(c, t, d, j, where):
     if tag not in j:
         if nullable:
             if others:
-                return 'U', 'extra keys'
+                # strict mode rejects unknown fields wherever they sit
+                return ('R', 'strict-unknown-field@%s(nullable member)' % where) if c.strict else ('U', 'extra keys')
             return 'A', ('union', (ns, d['name']), tag, None)
         return 'R', 'missing-tag-value@%s' % where
     if others:
